@@ -211,9 +211,16 @@ def oracle(w: Any, params: Any) -> List[dict]:
                 (st3 is None or not st3["ended"] or st3["body"] != b"sib"):
             out.append(V("sibling-blocked", f"{tag}:stream3", f"sibling stream state {st3}"))
     # release
-    released = not _pressure_on(w) and rel != "none" and (pressure, rel) not in NOT_A_RELEASE
+    not_release = (pressure, rel) in NOT_A_RELEASE
+    if carrier != "h1" and (pressure, rel) == ("pause", "eof"):
+        # on HTTP/2 the application's send waits in the per-stream buffer, not in the transport: the peer's EOF
+        # closes the connection as far as the protocol is concerned and must release it
+        not_release = False
+    released = not _pressure_on(w) and rel != "none" and not not_release
     if inst is not None and released:
         pend = [s for s in inst.sends if s[3] == "pending"]
+        if pend and carrier != "h1" and (pressure, rel) == ("pause", "eof") and pend[0][2]["type"] not in ("http.response.body", "websocket.send"):
+            pend = []  # a response head waits in the transport write itself, which an EOF cannot release
         if pend:
             out.append(V("send-never-released", tag, f"send #{inst.sends.index(pend[0])} of {len(inst.sends)} still pending; outcome={inst.outcome}"))
         if rel in ("credit", "resume") and not pend and rec.closed_at is None:
